@@ -71,12 +71,19 @@ def render_fragment(unit, docs, types):
     txt = p.st(sel, 1)
     params = []
     uses_self = 'self->' in txt or 'self)' in txt or re.search(r'\bself\b', txt)
-    if uses_self:
+    if uses_self or unit.get('force_self'):
         if not unit.get('self'):
             raise ExtractionBreak('fragment %s uses this but has no self struct name' % unit['name'])
         params.append('%s *self' % unit['self'])
+    locals_txt = ''
     for did, (nm, ct) in p.freevars.items():
-        params.append('%s *%s' % (ct, nm))
+        if unit.get('free_locals_nondet') and p.freevar_kind.get(did) == 'VarDecl':
+            # a local of the enclosing function: inside the fragment an arbitrary value whose updates are not observable
+            locals_txt += '\t%s %s_v; %s *%s = &%s_v;\n' % (ct, nm, ct, nm, nm)
+            p.fire('fragment:enclosing-local-as-nondet-local')
+        else:
+            params.append('%s *%s' % (ct, nm))
+    txt = locals_txt + txt
     sig = 'void %s(%s)' % (unit['name'], ', '.join(params) if params else 'void')
     p.fire('fragment:selected')
     line = sel.get('range', {}).get('begin', {}).get('line') or sel.get('range', {}).get('begin', {}).get('expansionLoc', {}).get('line')
